@@ -443,7 +443,16 @@ pub fn run(tier: Tier) -> RunOutcome {
                             // stable under the rounding of one scale/unscale round trip
                             probe("c19_huge_rhs_verdict_not_compared");
                         } else if let (Some(a), Some(b)) = (definite_status(&sn), definite_status(r)) {
-                            if a != b {
+                            if a != b
+                                && eff.n_dropped == 0
+                                && !(crate::props::c08::verdict_is_backed(&prob, &eff, &saved_settings, &sn)
+                                    && crate::props::c08::verdict_is_backed(&prob, &eff, &saved_settings, r))
+                            {
+                                // as in C08: a verdict that is not backed by what the solver returned
+                                // is a numerical failure on this (degenerate) input, which the last-bit
+                                // differences of one scale/unscale round trip can flip either way
+                                probe("c19_unbacked_verdict_disagreement_not_judged");
+                            } else if a != b {
                                 out.violations.push(Violation::new(
                                     "C19.loaded_verdict_differs",
                                     format!("loaded problem: {:?}, original: {:?}", sn.status, r.status),
